@@ -360,6 +360,23 @@ func (th *Theory) strLit(s string) string {
 	return name
 }
 
+// constArr returns an array term mapping every index to val. cvc5 only accepts (as const ..)
+// on values, so non-literal element terms get a named array with a quantified definition.
+func (th *Theory) constArr(k, v Sort, val string) string {
+	if val == "true" || val == "false" || (len(val) > 0 && (val[0] >= '0' && val[0] <= '9')) {
+		return fmt.Sprintf("((as const %s) %s)", arraySort(k, v), val)
+	}
+	key := "constarr|" + string(k) + "|" + string(v) + "|" + val
+	if c, ok := th.strLits[key]; ok {
+		return c
+	}
+	name := fmt.Sprintf("constarr$%d", len(th.strLits))
+	th.strLits[key] = name
+	th.declConst(name, arraySort(k, v))
+	th.axioms = append(th.axioms, fmt.Sprintf("(forall ((k %s)) (! (= (select %s k) %s) :pattern ((select %s k))))", k, name, val, name))
+	return name
+}
+
 func arraySort(k, v Sort) Sort { return Sort(fmt.Sprintf("(Array %s %s)", k, v)) }
 
 const preludeCore = `
